@@ -138,7 +138,12 @@ class Ctx:
             if n != 1:
                 raise MachineryError("cfg %s: constant %s not found" % (cfg, k))
         name = "%s.%s.cfg" % (cfg[:-4], hashlib.md5(json.dumps(overrides, sort_keys=True).encode()).hexdigest()[:8])
-        open(os.path.join(self.specs(), name), "w").write(txt)
+        dst = os.path.join(self.specs(), name)
+        if not os.path.exists(dst):
+            fd, tmp = tempfile.mkstemp(dir=self.specs(), suffix=".tmpcfg")     # several threads may derive the same cfg
+            with os.fdopen(fd, "w") as f:
+                f.write(txt)
+            os.replace(tmp, dst)
         return name
 
     def _tlc(self, module, cfg, args, timeout, env=None, heap=None, deque=False):
